@@ -105,7 +105,9 @@ def run(chk):
 
     types = list(sup) + [MISSING, "bogus_type"]
     fo_states = [(0, None)] + [(k, ft) for k in range(1, min(K, 3) + 1) for ft in ("buf", "not")]
-    name_forms = [("n0", {}), ("u0.p", {"u0": True}), ("u1.p", {})]
+    # dotted names: instance registered / not registered / not registered while a registered instance's name is a proper
+    # prefix of it (u1 next to u10) / while it is a proper prefix of a registered one
+    name_forms = [("n0", {}), ("u0.p", {"u0": True}), ("u1.p", {}), ("u10.p", {"u1": True}), ("u1.p", {"u10": True, "u": True})]
     flag_sets = list(itertools.product([False, True], repeat=3))
     if chk.tier == "quick":
         flag_sets = [(False, False, False), (True, False, False), (False, True, False), (False, False, True), (True, True, True)]
@@ -360,4 +362,41 @@ def library_outputs_rule(chk):
     ob("add_blackbox fully connected", par2, "Circuit.add_blackbox")
     P.call_method("circuit.py", "Circuit.fill_blackbox", par2, "u0", child)
     ob("fill_blackbox", par2, "Circuit.fill_blackbox")
+    # lint keeps no verdict between calls: a circuit that passed under one flag set is judged afresh under another, after an
+    # edit, and as a different object with the same content (whole function from source, reference circuits, one environment)
+    from ..refmodel import build as _build
+
+    def _clean_by_default():
+        # passes lint(c); violates unloaded (dead gate k), single_input_gates (1-input and), and - once undriven=False let it
+        # through - undriven (u)
+        return _build({"a": ("input", []), "b": ("input", []), "g": ("and", ["a"]), "k": ("or", ["a", "b"]), "o": ("xor", ["g", "b"])}, outputs=["o"])
+
+    def _undriven():
+        return _build({"a": ("input", []), "u": ("buf", []), "o": ("and", ["a", "u"])}, outputs=["o"])
+
+    seqs = {
+        "default then unloaded": (_clean_by_default, [({}, False), ({"unloaded": True}, True)]),
+        "default then single_input_gates": (_clean_by_default, [({}, False), ({"single_input_gates": True}, True), ({}, False)]),
+        "undriven=False then default": (_undriven, [({"undriven": False}, False), ({}, True), ({"undriven": False}, False)]),
+        "accumulating then fail-fast": (_clean_by_default, [({"fail_fast": False}, False), ({"fail_fast": False, "unloaded": True, "single_input_gates": True}, True), ({"unloaded": True}, True)]),
+    }
+    for sname, (mk, calls) in seqs.items():
+        cc = mk()
+        prob = None
+        for i_, (kw, want_raise) in enumerate(calls):
+            r = P.call(FILE, "lint", cc, **kw)
+            raised = r[0] == "raise" and r[1] == "ValueError"
+            if r[0] == "raise" and r[1] != "ValueError":
+                prob = {"call": i_ + 1, "flags": kw, "result": str(r)[:100]}
+                break
+            if raised != want_raise:
+                prob = {"call": i_ + 1, "flags": kw, "raised": raised, "expected_to_raise": want_raise}
+                break
+        chk.ob("C20.H.no-verdict-kept-between-calls", f"lint::{sname}", prob is None, file=FILE, func="lint", fact=prob or {"calls": len(calls)}, expect="every call judges the circuit under its own flags")
+    cc = _clean_by_default()
+    r1 = P.call(FILE, "lint", cc)
+    cc.set_type("o", "buf")  # same node and edge counts, now a buf with two fan-ins
+    r2 = P.call(FILE, "lint", cc)
+    chk.ob("C20.H.no-verdict-kept-between-calls", "lint::edit that keeps node and edge counts", r1[0] == "return" and r2[:2] == ("raise", "ValueError"), file=FILE, func="lint",
+           fact={"first": str(r1)[:60], "after set_type('o','buf')": str(r2)[:80]}, expect="passes, then ValueError")
     chk.floor("library outputs linted", n, 60)
